@@ -5,6 +5,7 @@ C13 (round 4) — the Python wrappers around the kernels: `bbox(border=, as_slic
 import Mahotas.Proofs.C13Oracles
 import Mahotas.Proofs.C13OraclesNum
 import Mahotas.Proofs.C13Filter
+import Mahotas.Proofs.C13BBox
 namespace Mahotas.C13
 open Mahotas
 
@@ -160,5 +161,75 @@ theorem cropTo_eq_spec (shape : List Nat) (box : List Int) (b : Int) (hb : 0 ≤
   constructor
   · intro h d hd; rw [← key d hd]; exact h d hd
   · intro h d hd; rw [key d hd]; exact h d hd
+
+/-! ### croptobbox end to end: the model of `bbox` feeds the slices -/
+
+theorem condFold_length (shape : List Nat) (data : List Int) : ∀ (is : List Nat) (ext : List Int),
+    (is.foldl (fun ext i => if data.getD i 0 ≠ 0 then bboxUpdate ext (unravelI shape i) else ext) ext).length =
+      ext.length := by
+  intro is
+  induction is with
+  | nil => intro ext; rfl
+  | cons i is ih =>
+    intro ext
+    simp only [List.foldl_cons]
+    rw [ih]
+    by_cases h : data.getD i 0 ≠ 0
+    · rw [if_pos h, bboxUpdate_length]
+    · rw [if_neg h]
+
+/-- every entry of the box the model of `bbox` returns is non-negative -/
+theorem bboxGeneric_nonneg (shape : List Nat) (data : List Int) (hlen : data.length = shapeSize shape)
+    (hnd : 0 < shape.length) (k : Nat) : 0 ≤ (bboxGeneric shape data).getD k 0 := by
+  obtain ⟨h0, h1⟩ := bboxGeneric_cases shape data hlen hnd
+  by_cases hps : ((List.range data.length).filter fun i => data.getD i 0 ≠ 0).map (unravelI shape) = []
+  · rw [h0 hps, List.getD_eq_getElem?_getD, List.getElem?_map]
+    cases (bboxInit shape)[k]? <;> simp
+  · rw [h1 hps]
+    by_cases hk : k < 2 * shape.length
+    · have hj : k / 2 < shape.length := by omega
+      obtain ⟨_, ht⟩ := bbox_tight shape data hlen (k / 2) hj
+      obtain ⟨⟨p, hp, e1⟩, ⟨q, hq, e2⟩⟩ := ht hps
+      obtain ⟨i, _, rfl⟩ := List.mem_map.1 hp
+      obtain ⟨i', _, rfl⟩ := List.mem_map.1 hq
+      rw [unravelI_getD] at e1 e2
+      rcases Nat.mod_two_eq_zero_or_one k with hk2 | hk2
+      · have : k = 2 * (k / 2) := by omega
+        rw [this, ← e1]; omega
+      · have : k = 2 * (k / 2) + 1 := by omega
+        rw [this, ← e2]; omega
+    · rw [List.getD_eq_getElem?_getD, List.getElem?_eq_none]
+      · simp
+      · rw [condFold_length, bboxInit_length]; omega
+
+/-- **croptobbox(img, border = b ≥ 0) end to end**: the crop computed from the model of `bbox` is the box grown by `b`
+    and clipped to the image, and it shows every non-zero pixel of the image -/
+theorem croptobbox_contains (shape : List Nat) (data : List Int) (hlen : data.length = shapeSize shape)
+    (hnd : 0 < shape.length) (b : Int) (hb : 0 ≤ b) :
+    (cropTo shape (bboxBorder (bboxGeneric shape data) b)).2 = cropSpec shape (bboxGeneric shape data) b ∧
+    ∀ i, i < data.length → data.getD i 0 ≠ 0 → i ∈ cropSpec shape (bboxGeneric shape data) b := by
+  have hblen : (bboxGeneric shape data).length = 2 * shape.length := by
+    unfold bboxGeneric bboxFinish
+    split
+    · rw [List.length_map, condFold_length, bboxInit_length]
+    · rw [condFold_length, bboxInit_length]
+  refine ⟨cropTo_eq_spec shape _ b hb hblen (bboxGeneric_nonneg shape data hlen hnd), ?_⟩
+  intro i hi hnz
+  have hmem : unravelI shape i ∈ ((List.range data.length).filter fun i => data.getD i 0 ≠ 0).map (unravelI shape) :=
+    List.mem_map.2 ⟨i, List.mem_filter.2 ⟨List.mem_range.2 hi, by simpa using hnz⟩, rfl⟩
+  have hps : ((List.range data.length).filter fun i => data.getD i 0 ≠ 0).map (unravelI shape) ≠ [] :=
+    List.ne_nil_of_mem hmem
+  obtain ⟨_, h1⟩ := bboxGeneric_cases shape data hlen hnd
+  rw [h1 hps]
+  unfold cropSpec
+  rw [List.mem_filter, List.mem_range, List.all_eq_true]
+  refine ⟨by omega, ?_⟩
+  intro d hd
+  have hd' : d < shape.length := List.mem_range.1 hd
+  obtain ⟨hin, _⟩ := bbox_tight shape data hlen d hd'
+  have := hin _ hmem
+  rw [unravelI_getD] at this
+  simp only [Bool.and_eq_true, decide_eq_true_eq]
+  omega
 
 end Mahotas.C13
